@@ -344,3 +344,32 @@ func oneLine(s string) string {
 
 // OneLine is exported for checks.
 func OneLine(s string) string { return oneLine(s) }
+
+// ReplayFallback is used by checks without a dedicated replay mode: it restates the
+// recorded violation (violation.json and the stored inputs / observations) and, when the
+// directory holds a repro.sh, runs it with SWAGGER pointing at a binary built from the
+// current tree. It exits 1 with the VIOLATION line (the stored witness is the evidence).
+func (c *Ctx) ReplayFallback() {
+	if c.Replay == "" {
+		return
+	}
+	b, err := os.ReadFile(filepath.Join(c.Replay, "violation.json"))
+	if err != nil {
+		fmt.Println("INCONCLUSIVE no violation.json in", c.Replay)
+		c.Cleanup()
+		os.Exit(2)
+	}
+	fmt.Println(string(b))
+	entries, _ := os.ReadDir(c.Replay)
+	for _, e := range entries {
+		fmt.Println("  file:", filepath.Join(c.Replay, e.Name()))
+	}
+	if _, err := os.Stat(filepath.Join(c.Replay, "repro.sh")); err == nil {
+		sw := c.BuildSwagger()
+		r := Run(c.Replay, append(os.Environ(), "SWAGGER="+sw), 30*time.Minute, "", "sh", "repro.sh")
+		fmt.Println(r.Stdout + r.Stderr)
+	}
+	fmt.Printf("VIOLATION property=%s replay=%s (recorded witness; re-run `./check %s quick` to re-observe it on the current tree)\n", c.Prop, c.Replay, c.Prop)
+	c.Cleanup()
+	os.Exit(1)
+}
